@@ -102,12 +102,15 @@ def gen_feature_program(rng, feature):
             y += ['      with-items: i in [1, 2]', '      workflow: sub a=<% $.i %> extra=7']
         else:
             y += ['      workflow: sub a=<% $.x %> extra=7']
+        keep = rng.random() < 0.6
+        if not keep:
+            y.append('      keep-result: false')
         y += ['      publish:', '        r: <% task().result %>', '      on-success: [p2]', '      on-error: [p2]', '    p2:',
               '      action: verif.act tag="p2"', 'sub:', '  input:', '    - a', '  output:', '    o: <% $.a %>', '  tasks:', '    c1:',
               '      action: verif.act tag="c1"', '      on-success: [c2]', '    c2:', '      action: verif.act tag="c2"']
         oracle = {('c2', None, None): {'ok': ('ok', 1), 'err': ('err', 'boom'), 'cancel': ('cancel',)}[child_out]}
         return {'yaml': '\n'.join(y) + '\n', 'oracle': oracle,
-                'meta': {'feature': feature, 'child_out': child_out, 'via_items': via_items}}
+                'meta': {'feature': feature, 'child_out': child_out, 'via_items': via_items, 'keep_result': keep}}
     if feature == 'dataflow':
         # fork / join with publishes in branches; deterministic values; joins read branch variables
         y = ["version: '2.0'", 'main:', '  input:', '    - v: 0', '  output:', '    a: <% $.get(a, null) %>', '    b: <% $.get(b, null) %>',
@@ -308,6 +311,7 @@ def run_one(d, prog, seed, inject_pause=False, inject_evict=False):
                 'events': 0, 'meta': meta}
     n_events = [0]
     max_running = [0]
+    finished = {}
 
     def check(label):
         v = d.view()
@@ -318,6 +322,20 @@ def run_one(d, prog, seed, inject_pause=False, inject_evict=False):
             if meta['concurrency'] is not None and running > meta['concurrency']:
                 fails.append({'property': 'C07', 'signature': 'concurrency-exceeded',
                               'what': '%d items RUNNING with concurrency %d after %s' % (running, meta['concurrency'], label)})
+        # C03 / C11: a finished workflow execution (root or sub-workflow) keeps its state and its output whatever arrives
+        # afterwards (no rerun / skip is issued in these runs)
+        for k, w in v['wf'].items():
+            if w['state'] in ('SUCCESS', 'ERROR', 'CANCELLED'):
+                now = (w['state'], json.dumps(w['output'], sort_keys=True, default=str))
+                was = finished.setdefault(k, now)
+                if was != now and not any(f['signature'].startswith('finished-workflow-changed') for f in fails):
+                    what = 'state' if was[0] != now[0] else 'output'
+                    fails.append({'property': 'C03', 'signature': 'finished-workflow-changed:%s:%s' % (what, 'sub' if w['has_parent'] else 'root'),
+                                  'what': 'workflow execution %s had finished as %s with output %s; after %s it is %s with output %s' % (
+                                      k, was[0], was[1][:120], label, now[0], now[1][:120])})
+            elif k in finished and not any(f['signature'].startswith('finished-workflow-changed') for f in fails):
+                fails.append({'property': 'C03', 'signature': 'finished-workflow-changed:state:%s' % ('sub' if w['has_parent'] else 'root'),
+                              'what': 'workflow execution %s had finished as %s; after %s it is %s' % (k, finished[k][0], label, w['state'])})
         if meta['feature'] == 'reverse':
             # C01 / C04: a task exists only once everything it requires has succeeded, and at most once
             by_name = collections.defaultdict(list)
